@@ -50,7 +50,8 @@ VEL_TOL = 1e-7  # km/s   (smallest generated impulse is 1e-3 km/s)
 @st.composite
 def _cases(draw):
     t0 = draw(eop_instants(margin_days=3))
-    dt = draw(st.one_of(st.sampled_from([2, 3, 5, 7, 10, 30, 60, 90, 120, 300, 600]), st.integers(2, 900)))
+    # (offsets that are multiples of 675 s = 1/128 day survive the Julian-date round trip exactly: steps dividing 675 reach them)
+    dt = draw(st.one_of(st.sampled_from([2, 3, 5, 7, 10, 30, 60, 90, 120, 300, 600]), st.sampled_from([45, 135, 225, 675]), st.integers(2, 900)))
     n = draw(st.integers(3, 10))
 
     def tau():
@@ -203,6 +204,7 @@ class _Tap:
     def __init__(self):
         self.step = 0
         self.log = []  # (event_id, event_type, (kind, id), step)
+        self.predictions = []  # (target id, step, time before, estimate before, time after, predicted estimate)
         self._orig = {}
 
     def __enter__(self):
@@ -221,11 +223,24 @@ class _Tap:
                 return _orig(ev, scope_instance)
 
             cls.handleEvent = wrapper
+        # the prediction jobs run in-process (Ray double) on copies of the filters: tapping the class sees every one of them
+        from resonaate.estimation.kalman.unscented_kalman_filter import UnscentedKalmanFilter
+
+        self._ukf, self._ukf_predict = UnscentedKalmanFilter, UnscentedKalmanFilter.predict
+
+        def predict(flt, final_time, scheduled_events=None, _orig=UnscentedKalmanFilter.predict):
+            before = (float(flt.time), np.array(flt.est_x, dtype=float))
+            out = _orig(flt, final_time, scheduled_events=scheduled_events)
+            tap.predictions.append((flt.target_id, tap.step, before[0], before[1], float(final_time), np.array(flt.pred_x, dtype=float)))
+            return out
+
+        UnscentedKalmanFilter.predict = predict
         return self
 
     def __exit__(self, *exc):
         for cls, orig in self._orig.items():
             cls.handleEvent = orig
+        self._ukf.predict = self._ukf_predict
         return False
 
 
@@ -312,6 +327,7 @@ def scenario_events(case, rec):
         if tap.step != n:
             raise Violation("step_count", f"{tap.step} steps executed, expected {n}")
         log = list(tap.log)
+        predictions = list(tap.predictions)
 
     def deliveries(i, who=None):
         return [(w, s) for (eid, _t, w, s) in log if eid == ids[i] and (who is None or w[0] == who)]
@@ -422,6 +438,56 @@ def scenario_events(case, rec):
                         rec.label("priority_effect_visible")
                 if r1.shape != exp.shape or not np.allclose(r1, exp, rtol=1e-12, atol=0):
                     raise Violation("priority_effect", f"step {j} engine {eid}: rewards given to the decision {r1.tolist()} != computed rewards with priority applied {exp.tolist()} (priority event active={active})")
+
+    # ---- planned impulses: effect on the estimate's prediction, exactly once ---------------------------
+    for tid in (T1, T4):
+        planned = sorted([ev for ev in evs if ev["kind"] == "impulse" and ev["target"] == tid and ev["planned"]], key=lambda e: e["tau"])
+        unplanned = [ev for ev in evs if ev["kind"] == "impulse" and ev["target"] == tid and not ev["planned"]]
+        if not planned and not unplanned:
+            continue
+        pending = list(planned)
+        for (ptid, j, t_a, x_a, t_b, x_b) in predictions:
+            if ptid != tid or not t_b > t_a:
+                continue
+
+            def ref_with(imps, _t_a=t_a, _x_a=x_a, _t_b=t_b):
+                s_, t_ = _x_a.copy(), _t_a
+                for ev in imps:
+                    at = min(max(ev["tau"], _t_a), _t_b)
+                    s_ = kepler.propagate(s_, at - t_) if at > t_ else s_
+                    t_ = at
+                    dv = np.array(ev["dv"], dtype=float)
+                    if ev["frame"] == "ntw":
+                        dv = kepler.ntw_basis(s_) @ dv
+                    s_ = s_.copy()
+                    s_[3:] += dv
+                return kepler.propagate(s_, _t_b - t_) if _t_b > t_ else s_
+
+            due = [ev for ev in pending if ev["tau"] <= t_b + 1e-3]
+            on_edge = [ev for ev in due if abs(ev["tau"] - t_b) <= 1e-3]
+            options = [(due, "all due impulses applied")]
+            if on_edge:
+                options.append(([ev for ev in due if ev not in on_edge], "impulse on the new epoch left for the next step"))
+            hit = None
+            errs = []
+            for imps, what in options:
+                ref = ref_with(imps)
+                dvv = float(np.linalg.norm(x_b[3:] - ref[3:]))
+                dpp = float(np.linalg.norm(x_b[:3] - ref[:3]))
+                errs.append((dvv, dpp, what))
+                # (unscented mean of the propagated sigma points vs the propagated mean: second order in the covariance)
+                if dvv <= 2e-5 and dpp <= 2e-5 * max(1.0, t_b - t_a) + 1e-3:
+                    hit = imps
+                    break
+            if hit is None:
+                raise Violation("estimate_impulse_effect", f"target {tid}, step {j} ({t_a}s -> {t_b}s, dt={dt}): the predicted estimate differs from the prior estimate propagated with each planned impulse applied exactly once ({[e['tau'] for e in due]}s due, unplanned {[e['tau'] for e in unplanned]}s) by {errs[0][0]:.3e} km/s, {errs[0][1]:.3e} km")
+            if due:
+                rec.label("planned_impulse_seen_in_prediction" if hit else "planned_impulse_left_for_next_step")
+            rec.err("estimate_prediction_vs_ref_vel_kms", min(e[0] for e in errs))
+            pending = [ev for ev in pending if ev not in hit]
+        left = [ev for ev in pending if ev["tau"] <= (n - 1) * dt]
+        if left and any(p[0] == tid for p in predictions):
+            raise Violation("estimate_impulse_dropped", f"target {tid}: planned impulses at {[e['tau'] for e in left]}s never showed in any prediction of the estimate")
 
     # ---- impulse effect on the truth trajectory ----------------------------------------------
     for tid in (T1, T4):
